@@ -109,6 +109,38 @@ def fullSource (s : Str) : Option Str :=
             | [p0, p1] => some (pathJoin [githubCom, p0, lastSegment p1 frag])
             | _ => some s
 
+/-- `strings.Cut(rest, "?")` (and the `ForceQuery` case): the text before the first `?`. -/
+def cutQuery : Str → Str
+  | [] => []
+  | c :: r => if c == '?' then [] else c :: cutQuery r
+
+/-- `FullSource` on sources with a `?` (outside the documented forms; no theorem is stated about it, it
+    is tied to the code by the correspondence only): `url.Parse` cuts the query off the path after
+    looking for a scheme. Still `none` when a `%` escape is involved. -/
+def fullSourceQ (s : Str) : Option Str :=
+  match s with
+  | [] => some []
+  | c0 :: _ =>
+    if c0 == '/' || c0 == '.' || c0 == '\\' then some s
+    else if s.contains '%' then none
+    else
+      let (u, frag) := cutHash s
+      if hasCTL u then some s
+      else if u == ['*'] then some (pathJoin [githubCom, bkPlugins, lastSegment u frag])
+      else
+        match getScheme u with
+        | .err => some s
+        | .some_ _ _ => some s
+        | .none_ =>
+          let rest := cutQuery u
+          let seg0 := (splitOn '/' rest).headD []
+          if seg0.contains ':' then some s
+          else
+            match splitOn '/' rest with
+            | [p0] => some (pathJoin [githubCom, bkPlugins, lastSegment p0 frag])
+            | [p0, p1] => some (pathJoin [githubCom, p0, lastSegment p1 frag])
+            | _ => some s
+
 /-! ## Documented domain -/
 
 def isNameChar (c : Char) : Bool :=
